@@ -4,6 +4,7 @@ from __future__ import annotations
 import json
 import os
 import time
+_real_time = time.time          # captured before the virtual wall clock is installed (runtime/vloop.py)
 import zlib
 
 VERIF = os.path.dirname(os.path.dirname(os.path.abspath(__file__)))
@@ -63,7 +64,7 @@ class Ctx:
         self.shard = shard
         self.nshards = nshards
         self.replaying = replaying
-        self.t0 = time.time()
+        self.t0 = _real_time()
         self.evaluations = 0
         self.nontrivial_keys = set()
         self.samples = []
@@ -139,7 +140,7 @@ class Ctx:
             "notes": self.notes,
             "skipped": self.skipped,
             "harness_errors": self.harness_errors[:5],
-            "wall_s": time.time() - self.t0,
+            "wall_s": _real_time() - self.t0,
         }
 
 
